@@ -283,6 +283,50 @@ func (s *Server) Edit(k *Kind, ns, name string, f func(o map[string]interface{})
 	return true
 }
 
+// EditLocked is Edit for use inside a Plan callback (the server mutex is already held): it lets a fault
+// plan *cause* a conflict by really changing the object between a controller's GET and PUT.
+func (s *Server) EditLocked(k *Kind, ns, name string, f func(o map[string]interface{})) bool {
+	key := objKey(k, ns, name)
+	old := s.objs[key]
+	if old == nil {
+		return false
+	}
+	n := runtime.DeepCopyJSON(old)
+	f(n)
+	s.commitUpdate(k, key, old, n, "")
+	return true
+}
+
+// GetLocked is Get for use inside a Plan callback.
+func (s *Server) GetLocked(k *Kind, ns, name string) map[string]interface{} {
+	o := s.objs[objKey(k, ns, name)]
+	if o == nil {
+		return nil
+	}
+	return runtime.DeepCopyJSON(o)
+}
+
+// RemoveLocked is Remove for use inside a Plan callback.
+func (s *Server) RemoveLocked(k *Kind, ns, name string) bool {
+	key := objKey(k, ns, name)
+	if s.objs[key] == nil {
+		return false
+	}
+	delete(s.objs, key)
+	s.dropSSA(key)
+	s.rv++
+	return true
+}
+
+// SeedLocked is Seed for use inside a Plan callback.
+func (s *Server) SeedLocked(obj map[string]interface{}) {
+	o := runtime.DeepCopyJSON(obj)
+	u := &unstructured.Unstructured{Object: o}
+	k := s.KindByKind(u.GetAPIVersion(), u.GetKind())
+	s.stamp(u, true)
+	s.objs[objKey(k, u.GetNamespace(), u.GetName())] = o
+}
+
 // Remove deletes the object outright (external delete that completed, no finalizer processing).
 func (s *Server) Remove(k *Kind, ns, name string) bool {
 	s.mu.Lock()
